@@ -1,10 +1,10 @@
 (* C05 - Client: every operation completes exactly once under cancel, Close and failure.
    Property theorems only; every proof is `exact <lemma>` (lemmas in coq/cli/CliC05.v, CliProofs.v, CliLive.v,
-   CliHist.v, CliWg.v, CliStop.v; invariants in coq/cli/CliInv.v, CliRet.v, CliCtx.v, CliOps.v, CliHist.v, CliWg.v,
+   CliHist.v, CliWg.v, CliStop.v, CliCloseWait.v; invariants in coq/cli/CliInv.v, CliRet.v, CliCtx.v, CliOps.v, CliHist.v, CliWg.v,
    CliStop.v). *)
 From Coq Require Import List NArith ZArith Bool Arith.
 From RecordUpdate Require Import RecordUpdate.
-From JV Require Import Bytes Msg CliModel CliLemmas CliInv CliRet CliProofs CliC05 CliCtx CliOps CliHist CliLive CliWg CliSend CliStep CliStop.
+From JV Require Import Bytes Msg CliModel CliLemmas CliInv CliRet CliProofs CliC05 CliCtx CliOps CliHist CliLive CliWg CliSend CliNoStop CliStep CliStop CliObs CliCloseWait.
 Import ListNotations.
 
 (* EXACTLY ONE RETURN (full statement).  In every history of every schedule each operation (Call, Batch, Notify,
@@ -125,3 +125,19 @@ Theorem c05_onstop_once : forall c tr s, traces_to c tr s ->
   /\ (forall c0, In (OOnStop c0) (hist s) -> err s = Some c0).
 Proof. exact onstop_once. Qed.
 Print Assumptions c05_onstop_once.
+
+(* CLOSE RETURNS ONLY AFTER ALL CALLBACK HANDLERS HAVE RETURNED (every trace, no quiescence hypothesis).
+   In every state the wait group counts exactly the reader (unless exited), the deliveries not yet run and the callback
+   handlers that have not finished.  If some Close has returned then the wait group is 0: the reader has exited, every
+   delivery is done, every callback handler is done (none alive), the client has stopped, and the value Close returned
+   is the stop cause unless it is uninteresting ([close_ret]).  Ordered form: in the part of the history after the
+   return of a Close there is no channel operation (OSendReq / OSendRsp / OClose), no callback handler start and no
+   OnNotify ([after_close_forbidden]). *)
+Theorem c05_close_waits : forall c tr s, traces_to c tr s ->
+  wg s = rdc s + cnt deliv_parked (delivs s) + cnt cb_alive (cbs s)
+  /\ (forall n r, In (ORet n (RetClose r)) (hist s) ->
+        wg s = 0 /\ rd s = RExited /\ (forall d, In d (delivs s) -> d_st d = DDone) /\ (forall cb, In cb (cbs s) -> cb_st cb = CbDone)
+        /\ err s <> None /\ RetClose r = close_ret s)
+  /\ (forall h1 n r h2, hist s = h1 ++ ORet n (RetClose r) :: h2 -> forall o, In o h2 -> after_close_forbidden o = false).
+Proof. exact close_waits. Qed.
+Print Assumptions c05_close_waits.
